@@ -1,6 +1,7 @@
 SPECIFICATION Spec
 INVARIANT LimitRestored
 INVARIANT BoundedIsPrefix
+INVARIANT ResultIsCounted
 INVARIANT NoOverflowWhenShallow
 INVARIANT ReturnsEverythingWhenShallow
 CHECK_DEADLOCK FALSE
